@@ -390,7 +390,11 @@ def run(ctx):
                  'relayclientlen is computed before relayclient receives its value: the guard len + relayclientlen >= 1000 then ignores the suffix that str_copy appends to buf[1000]')
     for inst, v in sorted(fixed_buffer_sites(db, rep).items()):
         r4.check(v[0], inst, v[1], v[2], v[3])
-    r4.expect_min(5)
+    from rules import C14
+    for inst, v in sorted(C14.strip_sites(db, rep, db.program('qmail-send')).items()):
+        if inst == 'strip:never-reads-beyond-the-recipient':
+            r4.check(v[0], inst, v[1], v[2], v[3])
+    r4.expect_min(6)
 
     # ---------------------------------------------------------------- 5. limit guards
     r6 = rep.rule('C20.6-two-pass-parsers', 'R-BOUND', 'token822_parse: for every header text up to 3 bytes over the lexically relevant bytes (and quoted pairs in comments, quoted strings, domain literals and atoms) the filling pass stores only inside the token and text buffers sized by the counting pass, and no pass reads beyond the field')
